@@ -306,6 +306,124 @@ func registerReflect() {
 		}
 		return Str{s: "<" + v.T.String() + " Value>"}
 	}
+	I["(reflect.Value).Type"] = func(e *Engine, caller *frame, fn *ssa.Function, args []Value) Value {
+		v := rv(args, "Type")
+		return e.rtypeIface(fn, v.T)
+	}
+	I["(reflect.Value).CanConvert"] = func(e *Engine, caller *frame, fn *ssa.Function, args []Value) Value {
+		v := rv(args, "CanConvert")
+		u := args[1].(Iface)
+		if u.T == nil {
+			reflectPanic("nil type passed to Value.CanConvert")
+		}
+		return e.tt.Bool(types.ConvertibleTo(v.T, u.V.(RType).T))
+	}
+	I["(reflect.Value).Len"] = func(e *Engine, caller *frame, fn *ssa.Function, args []Value) Value {
+		v := rv(args, "Len")
+		switch x := v.V.(type) {
+		case Slice:
+			return e.tt.IntConst(int64(len(x)), 64)
+		case Str:
+			return e.tt.IntConst(int64(x.Len()), 64)
+		case Array:
+			return e.tt.IntConst(int64(len(x)), 64)
+		case *Map:
+			if x == nil {
+				return e.tt.IntConst(0, 64)
+			}
+			return e.tt.IntConst(int64(len(x.entries)), 64)
+		case *Chan:
+			if x == nil {
+				return e.tt.IntConst(0, 64)
+			}
+			return e.tt.IntConst(int64(len(x.buf)), 64)
+		}
+		reflectPanic("call of reflect.Value.Len on %s Value", v.T)
+		return nil
+	}
+	I["(reflect.Value).Index"] = func(e *Engine, caller *frame, fn *ssa.Function, args []Value) Value {
+		v := rv(args, "Index")
+		i := int(concreteIntArg(e, args[1], "reflect Index"))
+		switch x := v.V.(type) {
+		case Slice:
+			if i < 0 || i >= len(x) {
+				reflectPanic("slice index out of range")
+			}
+			return RValue{T: v.T.Underlying().(*types.Slice).Elem(), V: copyVal(x[i])}
+		case Array:
+			if i < 0 || i >= len(x) {
+				reflectPanic("array index out of range")
+			}
+			return RValue{T: v.T.Underlying().(*types.Array).Elem(), V: copyVal(x[i])}
+		}
+		reflectPanic("call of reflect.Value.Index on %s Value", v.T)
+		return nil
+	}
+	I["(reflect.Value).IsZero"] = func(e *Engine, caller *frame, fn *ssa.Function, args []Value) Value {
+		v := rv(args, "IsZero")
+		if n, ok := isNilable(v.V); ok {
+			if s, isSlice := v.V.(Slice); isSlice {
+				return e.tt.Bool(s == nil)
+			}
+			return e.tt.Bool(n)
+		}
+		if types.Comparable(v.T) {
+			return e.equals(v.T, v.V, e.zero(v.T))
+		}
+		e.unsupported("reflect.Value.IsZero on %s", v.T)
+		return nil
+	}
+	I["(reflect.Value).Elem"] = func(e *Engine, caller *frame, fn *ssa.Function, args []Value) Value {
+		v := rv(args, "Elem")
+		switch u := v.T.Underlying().(type) {
+		case *types.Interface:
+			itf := v.V.(Iface)
+			if itf.T == nil {
+				return RValue{}
+			}
+			return RValue{T: itf.T, V: itf.V}
+		case *types.Pointer:
+			p := v.V.(*Value)
+			if p == nil {
+				return RValue{}
+			}
+			return RValue{T: u.Elem(), V: copyVal(*p)}
+		}
+		reflectPanic("call of reflect.Value.Elem on %s Value", v.T)
+		return nil
+	}
+	I["(*reflect.rtype).Name"] = func(e *Engine, caller *frame, fn *ssa.Function, args []Value) Value {
+		t := rtypeArg(args)
+		switch n := t.(type) {
+		case *types.Named:
+			return Str{s: n.Obj().Name()}
+		case *types.Basic:
+			return Str{s: n.Name()}
+		}
+		return Str{}
+	}
+	I["(*reflect.rtype).PkgPath"] = func(e *Engine, caller *frame, fn *ssa.Function, args []Value) Value {
+		if n, ok := rtypeArg(args).(*types.Named); ok && n.Obj().Pkg() != nil {
+			return Str{s: n.Obj().Pkg().Path()}
+		}
+		return Str{}
+	}
+	I["(*reflect.rtype).Comparable"] = func(e *Engine, caller *frame, fn *ssa.Function, args []Value) Value {
+		return e.tt.Bool(types.Comparable(rtypeArg(args)))
+	}
+	I["(*reflect.rtype).ChanDir"] = func(e *Engine, caller *frame, fn *ssa.Function, args []Value) Value {
+		c, ok := rtypeArg(args).Underlying().(*types.Chan)
+		if !ok {
+			reflectPanic("ChanDir of non-chan type")
+		}
+		switch c.Dir() {
+		case types.RecvOnly:
+			return e.tt.IntConst(1, 64)
+		case types.SendOnly:
+			return e.tt.IntConst(2, 64)
+		}
+		return e.tt.IntConst(3, 64)
+	}
 	I["(reflect.Value).Convert"] = func(e *Engine, caller *frame, fn *ssa.Function, args []Value) Value {
 		v := rv(args, "Convert")
 		u := args[1].(Iface)
